@@ -27,6 +27,10 @@ from typing import Any, Callable, Iterable, Optional
 VERIF = Path(__file__).resolve().parent.parent
 LEAN = VERIF / 'lean'
 REPO = Path(os.environ.get('XMLSCHEMA_REPO', '/repo'))
+# the implementation under check is whatever `import xmlschema` finds first: /repo by default, a scratch
+# worktree when XMLSCHEMA_REPO is set (used only for trying the checks against seeded changes)
+sys.path.insert(0, str(REPO))
+os.environ['PYTHONPATH'] = str(REPO) + (os.pathsep + os.environ['PYTHONPATH'] if os.environ.get('PYTHONPATH') else '')
 EVIDENCE = VERIF / 'evidence'
 REPLAYS = VERIF / 'replays'
 KNOWN_FINDINGS = VERIF / 'known_findings.json'
